@@ -110,3 +110,50 @@ impl Stats {
         eprintln!("HARNESS_STATS {{{}}}", body);
     }
 }
+
+// ---- diagrams with equal 64-bit hashes -------------------------------------------------------
+// `BDD::get_hash` is FxHasher over the words the derived `Hash` feeds (discriminant, children, symbol).
+// FxHasher's step is invertible, and variable ids are whole machine words, so for any diagram a second,
+// different one with the same hash can be computed.  The word model below is checked against the real
+// `get_hash` before it is used (`hash_model_ok`); code that takes a hash for an identity is then exposed.
+
+const FX_K: u64 = 0x517cc1b727220a95;
+fn fx_step(h: u64, w: u64) -> u64 { (h.rotate_left(5) ^ w).wrapping_mul(FX_K) }
+fn fx_words(ws: &[u64]) -> u64 { ws.iter().fold(0u64, |h, w| fx_step(h, *w)) }
+fn fx_kinv() -> u64 { let mut x: u64 = 1; for _ in 0..7 { x = x.wrapping_mul(2u64.wrapping_sub(FX_K.wrapping_mul(x))); } x }
+
+fn hash_words(b: &BDD<usize>, out: &mut Vec<u64>) {
+    match b {
+        BDD::False => out.push(0),
+        BDD::True => out.push(1),
+        BDD::Choice(t, s, f) => { out.push(2); hash_words(t, out); out.push(*s as u64); hash_words(f, out); }
+    }
+}
+
+pub fn hash_model_ok() -> bool {
+    let samples: Vec<B> = vec![from_tt(0, &[]), from_tt(1, &[]), from_tt(2, &[7]), from_tt(0x96, &[1, 4, 9]), from_tt(0xE8, &[0, 2, 3])];
+    samples.iter().all(|b| { let mut w = Vec::new(); hash_words(b, &mut w); fx_words(&w) == b.get_hash() })
+}
+
+/// a diagram `or(var v, var z)`, `var z` or `not (var z)` (by `shape` 0/1/2) with the same hash as `a`,
+/// as the pair (v, z); `None` if the solved id does not give an ordered diagram different from `a`
+pub fn colliding(a: &BDD<usize>, shape: u64, v: usize) -> Option<(usize, B)> {
+    let target = a.get_hash();
+    let (prefix, suffix): (Vec<u64>, Vec<u64>) = match shape {
+        0 => (vec![2, 1, v as u64, 2, 1], vec![0]),   // Choice(T, v, Choice(T, z, F))
+        1 => (vec![2, 1], vec![0]),                   // Choice(T, z, F)
+        _ => (vec![2, 0], vec![1]),                   // Choice(F, z, T)
+    };
+    let kinv = fx_kinv();
+    let mut h = target;
+    for w in suffix.iter().rev() { h = (h.wrapping_mul(kinv) ^ w).rotate_right(5); }
+    let z = (fx_words(&prefix).rotate_left(5) ^ h.wrapping_mul(kinv)) as usize;
+    let leaf = |t: bool| -> B { Rc::new(if t { BDD::True } else { BDD::False }) };
+    let b: B = match shape {
+        0 => { if z <= v { return None; } Rc::new(BDD::Choice(leaf(true), v, Rc::new(BDD::Choice(leaf(true), z, leaf(false))))) }
+        1 => Rc::new(BDD::Choice(leaf(true), z, leaf(false))),
+        _ => Rc::new(BDD::Choice(leaf(false), z, leaf(true))),
+    };
+    if b.get_hash() != target || b.as_ref() == a { return None; }
+    Some((z, b))
+}
